@@ -183,7 +183,13 @@ def obligations(tier):
     nb = 4 if q else 8
     flmax = nb * 1014 + 20 - 1014
     nb_state = nb
-    return [
+    from . import c03
+    extra = [Ob('convenience/vbs_bytes_to_list/blocked', c03.roundtrip([4000], True, 'func'), 300,
+                'a blocked VBS stream of one record of every length 1..4000 (one to four blocks) unblocked through vbs_bytes_to_list(blocked=True) '
+                '(the C03 obligation: the payload stream comes back byte for byte)', _funcs),
+             Ob('convenience/vbs_bytes_to_list/blocked/3-to-5-blocks', c03.roundtrip([4900], True, 'func', lo=2100), 300,
+                'the same for one record of 2100..4900 bytes (three to five blocks)', _funcs)]
+    return extra + [
         Ob('step/read-from-any-state', step(flmax, nb_state, 2100), 240,
            'file length 0..%d (any, not only multiples of 1014), any invariant state (k<=%d blocks fetched, d delivered), n in 1..2100' % (flmax, nb_state), _funcs,
            'files longer than %d bytes; read sizes above 2100 (two blocks); induction covers read sequences of any length' % flmax),
